@@ -170,8 +170,12 @@ impl SharedDatabase {
             return Ok(0);
         }
 
+        #[cfg(kahflane_turdb_verif)]
+        crate::verif::crash_point("ckpt.rotated");
         let root_dir = self.path.join(crate::storage::DEFAULT_SCHEMA);
         let frames = Database::replay_schema_tables_from_segments(&root_dir, &closed_segments)?;
+        #[cfg(kahflane_turdb_verif)]
+        crate::verif::crash_point("ckpt.replayed");
 
         {
             let guard = self.wal.lock();
@@ -241,6 +245,12 @@ impl Database {
 
         let memory_budget = Arc::new(MemoryBudget::auto_detect());
         let recovery_available = memory_budget.available(Pool::Recovery);
+        #[cfg(kahflane_turdb_verif)]
+        let recovery_available = if crate::verif::force_degraded() {
+            0
+        } else {
+            recovery_available
+        };
 
         let estimate = Self::estimate_recovery_cost(&wal_dir)?;
 
@@ -678,9 +688,18 @@ impl Database {
 
         file.seek(SeekFrom::Start(0))
             .wrap_err("failed to seek to start of metadata file")?;
+        #[cfg(kahflane_turdb_verif)]
+        crate::verif::crash_point("meta.before");
         file.write_all(&page)
             .wrap_err("failed to write metadata header")?;
+        #[cfg(kahflane_turdb_verif)]
+        crate::verif::crash_point("meta.written");
         file.sync_all().wrap_err("failed to sync metadata file")?;
+        #[cfg(kahflane_turdb_verif)]
+        {
+            crate::verif::synced(&meta_path);
+            crate::verif::crash_point("meta.synced");
+        }
 
         Ok(())
     }
